@@ -21,7 +21,9 @@ def cases(draw):
             'winners': draw(su.winners_for(spec)), 'costs': costs,
             'dict': len(costs) > 1 or draw(st.booleans()), 'full_cost': draw(st.booleans()),
             'mode': draw(st.sampled_from(['soft', 'soft', 'hard', 'train-soft', 'train-hard'])),
-            'temperature': draw(st.sampled_from([0.05, 0.3, 1.0, 4.0, 20.0]))}
+            'temperature': draw(st.sampled_from([0.05, 0.3, 1.0, 4.0, 20.0])),
+            # 'every value of the coefficients': also tied maxima (the construction-time vector)
+            'ties': draw(st.sampled_from(['none', 'none', 'none', 'uniform', 'partial']))}
 
 
 def _close(a, b):
@@ -41,6 +43,14 @@ def oracle(case) -> Result:
     import copy
     meas = refcost.measure(copy.deepcopy(net).eval(), x0)
     su.set_winner_coefficients(sn, spec, case['winners'], case['aseed'])
+    if case.get('ties', 'none') != 'none':
+        with torch.no_grad():
+            for nid, comb in su.combiners(sn).items():
+                if case['ties'] == 'uniform':
+                    comb.alpha.fill_(1.0 / comb.n_branches)
+                else:
+                    top2 = torch.topk(comb.alpha, 2).indices
+                    comb.alpha[top2[1]] = comb.alpha[top2[0]]
     hard = case['mode'] in ('hard', 'train-hard')
     sn.update_softmax_options(temperature=case['temperature'], hard=hard)
     if case['mode'].startswith('train'):
